@@ -159,7 +159,8 @@ def check_quantile(seed, n):
     except Exception as e:
         return [(f"quantile-exception:{type(e).__name__}", str(e)[:100])]
     rngv = float(sv[-1] - sv[0])
-    tol = 1e-9 * max(rngv, 1e-300)
+    # the estimator is a weighted sum of the order statistics: rounding of the sum is ~ n_terms ulp of the largest magnitude (matters when all values are equal)
+    tol = 1e-9 * max(rngv, 1e-300) + 1e-12 * float(np.max(np.abs(sv)))
     if np.any(np.diff(out) < -tol):
         probs.append(("quantile-not-monotone-in-q", float(np.min(np.diff(out)))))
     if out.min() < sv[0] - tol or out.max() > sv[-1] + tol:
